@@ -1,12 +1,28 @@
-// Package c04: correspondence harness of C04 (stub: replaced when C04 is built).
+// Package c04: derived Hash vs the model of plugin/hash; Equal values hash alike.
 package c04
 
 import (
 	"fmt"
+	"strings"
 
+	"verifharness/internal/ga"
 	"verifharness/internal/hx"
 )
 
 func Run(cfg hx.Config) (*hx.Meta, error) {
-	return nil, fmt.Errorf("C04: harness not built yet")
+	vr := &ga.ValueRun{
+		Prop: "C04", Calls: []ga.Call{ga.CallHash, ga.CallEq}, SupObs: "sup-hash", PoolQuick: 14, PoolThorough: 24, TwoProcess: true,
+		Cases: func(idx int, t *ga.Type, vals []*ga.Val, r *hx.Rand, out *strings.Builder) {
+			for _, x := range vals {
+				// hash of the value, with the argument serialised before and after the call
+				fmt.Fprintf(out, "hash+ %d %s\n", idx, x.Sexp())
+			}
+			for _, x := range vals {
+				for _, y := range vals {
+					fmt.Fprintf(out, "hasheq %d %s %s\n", idx, x.Sexp(), y.Sexp())
+				}
+			}
+		},
+	}
+	return vr.Run(cfg)
 }
